@@ -565,7 +565,8 @@ def check_text_output(ctx, mode, et, g, out):
                 E.append((int(t[0]) - 1, int(t[1]) - 1, t[2]))
             if int(h[0]) != int(h[1]):
                 raise ValueError("not square")
-            return cmp_text_edges(ctx, mode, et, g, E, int(h[0]), int(h[2]), cast=float)
+            # the weight text must carry the weight exactly, whether printed as an integer or as a decimal fraction
+            return cmp_text_edges(ctx, mode, et, g, E, int(h[0]), int(h[2]))
         if mode == "gr2adjacencylist":
             E = []
             seen = []
